@@ -91,7 +91,7 @@ func newFree(w workload, chanCap int, res *engine.Result) *machine.Machine {
 	case "rom":
 		img, err = cartBuild(engine.CartSpec{Kind: "file", File: w.ROM})
 	default:
-		kinds := []string{"rom", "mbc1", "mbc3rtc", "mbc5", "mbc2"}
+		kinds := []string{"rom", "mbc1", "mbc3rtc", "mbc5", "mbc2", "mbc3"}
 		k := kinds[int(w.Seed>>3)%len(kinds)]
 		spec := engine.CartSpec{Kind: k, RomCode: 1, RamCode: []uint8{0, 2, 3}[int(w.Seed>>9)%3], FillSeed: w.Seed, Program: "18fe"}
 		if k == "rom" {
@@ -165,6 +165,20 @@ func newFree(w workload, chanCap int, res *engine.Result) *machine.Machine {
 				g.emit16(0x21, lsStackLo-0x100+uint16(r.Intn(0x80)))
 				g.emit(0x77)
 			}
+		}
+		if t := img[0x147]; t >= 0x0f && t <= 0x13 {
+			// an MBC3 cartridge: the clock registers are used too (select, write, latch, read back into
+			// work RAM), then RAM bank 0 is selected again
+			for j, k := 0, r.Range(1, 3); j < k; j++ {
+				g.emit(0x3e, uint8(0x08+r.Intn(5)), 0xea, 0x00, 0x40) // select a clock register
+				if r.Bool() {
+					g.emit(0x3e, r.Byte(), 0xea, 0x00, 0xa0) // write it
+				}
+				g.emit(0xaf, 0xea, 0x00, 0x60, 0x3c, 0xea, 0x00, 0x60) // latch: 0 then 1
+				g.emit(0xfa, 0x00, 0xa0)                               // LD A,(A000)
+				g.emit16(0xea, lsStackLo-0x80+uint16(r.Intn(0x40)))    // keep what was read
+			}
+			g.emit(0xaf, 0xea, 0x00, 0x40)
 		}
 		for i, n := 0, r.Range(8, 60); i < n; i++ {
 			switch r.Intn(8) {
